@@ -85,7 +85,8 @@ func c11Doc(r *core.Rand, today ref.Date) (string, []c11Rec) {
 		}
 		sb.WriteString(ref.FormatDate(rc.date, rc.dashes) + rc.eol)
 		if rc.summary {
-			sb.WriteString("notes for the day" + rc.eol)
+			// (sometimes a summary line made only of characters that are white space to many libraries, but not blank characters of the format)
+			sb.WriteString([]string{"notes for the day", "notes for the day", "notes for the day", "\u2028", "\f", "\u0085\v"}[core.Hash64("c11-summary", fmt.Sprint(rc.date, i))%6] + rc.eol)
 		}
 		sp := ""
 		if rc.dashSpaces {
